@@ -125,6 +125,51 @@ pub fn search(tier: &str, seed: u64, s: &mut Search) {
             i += 1;
         }
     }
+    // reference graphs (every link kind, cycles included) - shared with C03's enumeration
+    {
+        let cycles = crate::c03::enumerate_cycles(2);
+        let take = if tier == "thorough" { cycles.len() } else { 120.min(cycles.len()) };
+        for i in 0..take {
+            let (tys, lks) = &cycles[(i * 7919 + seed as usize) % cycles.len()];
+            let doc = crate::c03::cycle_doc(tys, lks, i % 2 == 0);
+            run(&mut wk, s, "reference-graph", doc.as_bytes(), 96.0);
+        }
+        // self references through every paint / effect attribute, on the definition's own content
+        for attr in ["fill", "stroke", "clip-path", "mask", "filter", "marker-start", "marker-mid", "marker-end"] {
+            for with_fill in [true, false] {
+                let extra = if with_fill && attr != "fill" { r#" fill="red""# } else { "" };
+                for (open, close, id) in [("<pattern id=\"d\" width=\"5\" height=\"5\">", "</pattern>", "d"), ("<clipPath id=\"d\">", "</clipPath>", "d"), ("<mask id=\"d\">", "</mask>", "d"), ("<marker id=\"d\">", "</marker>", "d"), ("<filter id=\"d\"><feImage xlink:href=\"#r\"/>", "</filter>", "d")] {
+                    let doc = format!(
+                        r##"<svg xmlns="http://www.w3.org/2000/svg" xmlns:xlink="http://www.w3.org/1999/xlink" width="20" height="20"><defs>{open}<path id="r" d="M 1 1 L 9 9 L 1 9" {attr}="url(#{id})"{extra}/>{close}</defs><rect width="10" height="10" {attr}="url(#{id})"/><rect width="5" height="5" fill="url(#{id})" stroke="url(#{id})"/></svg>"##
+                    );
+                    run(&mut wk, s, "self-reference", doc.as_bytes(), 96.0);
+                }
+            }
+        }
+    }
+    // text: spans with unusable font sizes, multi-byte characters, per-character position lists
+    {
+        let sizes = ["0", "-3", "0em", "0%", "1e-40", "1e38", "NaN", "12"];
+        let texts = ["é", "日本", "a", "🙂x", "e\u{301}", "", " ", "abc אבג"];
+        let nt = if tier == "thorough" { 600 } else { 120 } * mult;
+        for _ in 0..nt {
+            let spans: String = (0..1 + rng.below(4))
+                .map(|_| {
+                    let (fs, tx) = (*rng.pick(&sizes), *rng.pick(&texts));
+                    match rng.below(3) {
+                        0 => format!(r#"<tspan font-size="{fs}">{tx}</tspan>"#),
+                        1 => format!(r#"<tspan font-size="{fs}" x="1 2 3" dy="1 1 1 1 1" rotate="10 20">{tx}</tspan>{}"#, rng.pick(&texts)),
+                        _ => tx.to_string(),
+                    }
+                })
+                .collect();
+            let doc = format!(
+                r#"<svg xmlns="http://www.w3.org/2000/svg" width="50" height="50"><text x="{}" y="20" dx="1 2" font-size="{}" letter-spacing="{}" writing-mode="{}">{spans}</text></svg>"#,
+                rng.pick(&["1", "1 2 3 4 5 6", ""]), rng.pick(&sizes), rng.pick(&["0", "1e38", "-5"]), rng.pick(&["lr", "tb"])
+            );
+            run(&mut wk, s, "text-edge", doc.as_bytes(), 96.0);
+        }
+    }
     // raw bytes and truncated gzip
     let nr = (if tier == "thorough" { 2000 } else { 200 }) * mult;
     for i in 0..nr {
